@@ -1,0 +1,26 @@
+//go:build verif
+// +build verif
+
+// Package vhook carries the instrumentation points of the verification framework in /verif.
+// It is compiled in only with the build tag "verif"; see off.go for the default.
+package vhook
+
+import "sync/atomic"
+
+// Func receives a point name and one scalar argument (an address used as an identity, a counter...).
+type Func func(point string, a uintptr)
+
+var hook atomic.Value // Func
+
+// Set installs the hook (nil removes it).
+func Set(f Func) {
+	hook.Store(f)
+}
+
+// Emit reports that the caller has reached an instrumentation point. The installed hook may
+// block: that is how the harness drives goroutines through a chosen interleaving.
+func Emit(point string, a uintptr) {
+	if f, _ := hook.Load().(Func); f != nil {
+		f(point, a)
+	}
+}
